@@ -35,19 +35,19 @@ type Tx struct {
 
 // Report is what Exec observed for one transaction.
 type Report struct {
-	OK       bool
-	Res      chain.TxResult
-	Exp      []*Expect
-	TxExp    Outcome
-	Deps     []chain.DepCall
-	Ops      []chain.StoreOp
-	Events   []*ref.Event
-	Sent     [][]byte // decoded MessageSent payloads in order
-	SentIdx  []int    // index of the transaction message that emitted each of them (msg_index attribute; -1 unknown)
+	OK         bool
+	Res        chain.TxResult
+	Exp        []*Expect
+	TxExp      Outcome
+	Deps       []chain.DepCall
+	Ops        []chain.StoreOp
+	Events     []*ref.Event
+	Sent       [][]byte // decoded MessageSent payloads in order
+	SentIdx    []int    // index of the transaction message that emitted each of them (msg_index attribute; -1 unknown)
 	RespNonces []uint64
-	Adopted  bool
-	PreHash  [32]byte
-	PostHash [32]byte
+	Adopted    bool
+	PreHash    [32]byte
+	PostHash   [32]byte
 }
 
 // Engine = real chain + reference model + online monitors.
@@ -68,26 +68,26 @@ type Engine struct {
 	FTFPaused   bool
 	Blacklisted map[string]bool // hex of raw address
 	// options
-	LightQueries bool // run scalar queries after each tx
-	NoDumpCheck  bool
-	NoModeTwin   bool // do not run each transaction in simulation mode first
+	LightQueries   bool // run scalar queries after each tx
+	NoDumpCheck    bool
+	NoModeTwin     bool // do not run each transaction in simulation mode first
 	NoPositionTwin bool
-	RecordBlocks bool // keep the bytes and results of every delivered block (block-partition replays)
-	BlockLog     [][][]byte
-	ResLog       []chain.TxResult
-	TxCount      int
-	Watch        []string // extra bech32 addresses whose balances are tracked
-	history      []string // short textual history for replay files
-	accepted     map[nonceKey]bool // pairs for which a receive succeeded on this chain history (never resynchronised)
+	RecordBlocks   bool // keep the bytes and results of every delivered block (block-partition replays)
+	BlockLog       [][][]byte
+	ResLog         []chain.TxResult
+	TxCount        int
+	Watch          []string          // extra bech32 addresses whose balances are tracked
+	history        []string          // short textual history for replay files
+	accepted       map[nonceKey]bool // pairs for which a receive succeeded on this chain history (never resynchronised)
 	// conservation bookkeeping from what was observed (independent of the model's verdicts)
-	SumMintReq   *big.Int // successful Mint requests of successful transactions
-	SumAccepted  *big.Int // amounts of module-addressed burn messages accepted (distinct pairs)
-	SumBurnReq   *big.Int // successful Burn requests of successful transactions
-	SumDeposits  *big.Int // amounts stated by module-sent messages emitted by deposits
-	dbgCons      bool
-	ModuleHeld   *big.Int // coins minted to the module's own account since the ledger baseline
-	c13Broken    bool
-	c13Started   bool
+	SumMintReq  *big.Int // successful Mint requests of successful transactions
+	SumAccepted *big.Int // amounts of module-addressed burn messages accepted (distinct pairs)
+	SumBurnReq  *big.Int // successful Burn requests of successful transactions
+	SumDeposits *big.Int // amounts stated by module-sent messages emitted by deposits
+	dbgCons     bool
+	ModuleHeld  *big.Int // coins minted to the module's own account since the ledger baseline
+	c13Broken   bool
+	c13Started  bool
 }
 
 // NewEngine builds a chain from cfg and the matching model.
